@@ -563,11 +563,12 @@ impl AckAggregationState {
     ) -> u64 {
         // Compute how many bytes are expected to be delivered, assuming max
         // bandwidth is correct.
-        let expected_bytes_acked = max_bandwidth
+        let expected_bytes_acked = (u128::from(max_bandwidth)
             * now
                 .saturating_duration_since(self.aggregation_epoch_start_time.unwrap_or(now))
-                .as_micros() as u64
-            / 1_000_000;
+                .as_micros()
+            / 1_000_000)
+            .min(u128::from(u64::MAX)) as u64;
 
         // Reset the current aggregation epoch as soon as the ack arrival rate is
         // less than or equal to the max bandwidth.
